@@ -23,10 +23,17 @@ def with_configs(shards, configs, take=2):
                 '%s=%s' % (k, v if not isinstance(v, list) else ''.join(v))
                 for k, v in sorted(cfg.items())))
             c['config'] = cfg
+            if cfg.get('env'):
+                c['env'] = dict(c.get('env') or {}, **cfg['env'])
             out.append(c)
     return out
 
 
+# a process started in another locale / time zone / hash seed
+ENV_FOREIGN = {'env': {'LANG': 'de_DE.UTF-8', 'LC_ALL': 'de_DE.UTF-8',
+                       'LC_MESSAGES': 'de_DE.UTF-8', 'LANGUAGE': 'de',
+                       'TZ': 'Asia/Kathmandu', 'PYTHONHASHSEED': '4242',
+                       'PYTHONUTF8': '0'}}
 W_ERROR = {'warnings': 'error'}
 LOG_DEBUG = {'logging': 'debug'}
 PY_O = {'pyflags': ['-O']}
@@ -316,7 +323,7 @@ def encode_under_context(fn, v, ctx):
         return call(fn, v)
 
 
-ALL_CONFIGS = [W_ERROR, LOG_DEBUG, PY_O]
+ALL_CONFIGS = [W_ERROR, LOG_DEBUG, PY_O, ENV_FOREIGN]
 
 
 def disturb_encoder(rnd, k=2):
